@@ -129,7 +129,31 @@ func main() {
 			r.Require(r.Counter("sameid_sent_answer_returned_"+k+"_"+h) > 0, "same-id family: the %s client was not observed %s", k, h)
 		}
 	}
-	r.Finish("per client kind (Streamable JSON answers, Streamable SSE answers, Streamable GET listening stream, legacy SSE, stdio) a seeded list of scripts = (placement, fragment class, random parameters): a fragment (garbage bytes incl. NUL / invalid UTF-8, non-JSON lines, JSON of the wrong kind, responses with unknown / other-pending / mistyped / missing ids, both or neither of result and error, results and errors of the wrong shape, odd notifications and server requests, deep nesting, frames of 64 KiB-1 / 64 KiB / 64 KiB+1 / 1 MiB / 16 MiB, SSE comments, blank lines, CR / CRLF line ends, data without space, multi-line data, id-only events, BOM, unknown fields, unterminated huge line, duplicated / missing / garbage / late endpoint events, HTTP-level faults: content types, empty 200, 204, 202, 5xx/4xx HTML, redirects, truncated chunked bodies, Content-Length mismatches, bad status lines and headers, abort) is placed before / inside / after / instead of the valid answer of one probe call (ListTools or CallTool), on the GET stream while the probe runs over POST, in the handshake, or on stderr; the exchange ends by the valid answer, by the server closing, or (where the client cannot know) by the caller's 1.5 s deadline. Scripted servers use no library type (raw TCP HTTP/1.1 server, scripted stdio child). Per script, in a child process: the probe returns an error or the valid result (never a foreign-id frame's content, never a result out of nothing), a call pending across the fragment completes with its own answer, CPU of the idle client over 300 ms windows before / after the fragment stays below 20 % of a core (two consecutive windows to call it a spin), later well-formed notification + roots/list request on the long-lived stream are processed (one following frame may be lost to a fragment that leaves a line open), a second call succeeds (or fails promptly when the server closed the stream), Close returns within 10 s (stdio 12 s). A wait is cut short only when the client's reader goroutine is gone or busy-looping. Same-id family (on top of the list above, size fixed by the tier): frames of the wrong kind that bear the id of the call in flight (server-to-client requests roots/list / sampling / ping / unknown / notification-method with that id, the id as string or decimal; id-only objects, id + params, no version, unknown members, method of the wrong type; request-and-response-at-once; the same addressed at the other pending call) x call type (ListTools, CallTool, ListPrompts, ListResources, ReadResource, GetPrompt) x (placement before / between / after the well-formed answer; JSON mode: instead of / in front of / batched with it; GET stream; legacy and stdio stream) x (notification handler registered or not); there the CONTENT the call returns is compared with what the server sent: after a legal server request only the well-formed answer's content may come back, after a malformed id-bearing object that content or an error, and the odd frame's own result only where it has one. Distinct = (client kind, placement, fragment class, probe outcome) that conformed.",
+	// the typed-members family must have been observed on every client kind that ran: each family of frames, both
+	// handler modes, the later-frames / later-call part of the oracle, and a measured set of member classes
+	for _, k := range kinds {
+		for _, fam := range []string{"notif", "srvreq", "error", "result"} {
+			if fam == "result" && k == "streamable-get" {
+				continue // result frames are not driven on the GET stream (they never reach a result decoder there)
+			}
+			r.Require(r.Counter("typed_scripts_conformed_"+fam+"_"+k) > 0, "typed-members family: no %s script of the %s client ran to a conforming end", fam, k)
+		}
+		r.Require(r.Counter("typed_second_calls_succeeded_"+k) > 0, "typed-members family: no later call of the %s client succeeded after a typed-members fragment", k)
+		if k == "streamable-get" || k == "legacy-sse" || k == "stdio" {
+			r.Require(r.Counter("typed_later_roots_list_answered_"+k) > 0, "typed-members family: no later roots/list request was answered by the %s client after a typed-members fragment", k)
+		}
+		if k == "streamable-get" || k == "stdio" {
+			r.Require(r.Counter("typed_later_notifications_delivered_"+k) > 0, "typed-members family: no later notification reached the handler of the %s client after a typed-members fragment", k)
+		}
+	}
+	if len(kinds) > 0 {
+		for _, h := range []string{"with-handler", "without-handler"} {
+			r.Require(r.Counter("typed_scripts_conformed_"+h) > 0, "typed-members family: no script conformed %s", h)
+		}
+		r.Require(r.Counter("typed_probes_returned_the_well_formed_answer") > 0 && r.Counter("typed_probes_failed_with_an_error") > 0, "typed-members family: the probe outcomes (well-formed answer / error) were not both observed")
+		r.Require(r.Counter("typed_notifications_handed_to_registered_handlers") > 0, "typed-members family: no notification of the family reached a registered handler (the with-handler mode observed nothing)")
+	}
+	r.Finish("per client kind (Streamable JSON answers, Streamable SSE answers, Streamable GET listening stream, legacy SSE, stdio) a seeded list of scripts = (placement, fragment class, random parameters): a fragment (garbage bytes incl. NUL / invalid UTF-8, non-JSON lines, JSON of the wrong kind, responses with unknown / other-pending / mistyped / missing ids, both or neither of result and error, results and errors of the wrong shape, odd notifications and server requests, deep nesting, frames of 64 KiB-1 / 64 KiB / 64 KiB+1 / 1 MiB / 16 MiB, SSE comments, blank lines, CR / CRLF line ends, data without space, multi-line data, id-only events, BOM, unknown fields, unterminated huge line, duplicated / missing / garbage / late endpoint events, HTTP-level faults: content types, empty 200, 204, 202, 5xx/4xx HTML, redirects, truncated chunked bodies, Content-Length mismatches, bad status lines and headers, abort) is placed before / inside / after / instead of the valid answer of one probe call (ListTools or CallTool), on the GET stream while the probe runs over POST, in the handshake, or on stderr; the exchange ends by the valid answer, by the server closing, or (where the client cannot know) by the caller's 1.5 s deadline. Scripted servers use no library type (raw TCP HTTP/1.1 server, scripted stdio child). Per script, in a child process: the probe returns an error or the valid result (never a foreign-id frame's content, never a result out of nothing), a call pending across the fragment completes with its own answer, CPU of the idle client over 300 ms windows before / after the fragment stays below 20 % of a core (two consecutive windows to call it a spin), later well-formed notification + roots/list request on the long-lived stream are processed (one following frame may be lost to a fragment that leaves a line open), a second call succeeds (or fails promptly when the server closed the stream), Close returns within 10 s (stdio 12 s). A wait is cut short only when the client's reader goroutine is gone or busy-looping. Same-id family (on top of the list above, size fixed by the tier): frames of the wrong kind that bear the id of the call in flight (server-to-client requests roots/list / sampling / ping / unknown / notification-method with that id, the id as string or decimal; id-only objects, id + params, no version, unknown members, method of the wrong type; request-and-response-at-once; the same addressed at the other pending call) x call type (ListTools, CallTool, ListPrompts, ListResources, ReadResource, GetPrompt) x (placement before / between / after the well-formed answer; JSON mode: instead of / in front of / batched with it; GET stream; legacy and stdio stream) x (notification handler registered or not); there the CONTENT the call returns is compared with what the server sent: after a legal server request only the well-formed answer's content may come back, after a malformed id-bearing object that content or an error, and the odd frame's own result only where it has one. Typed-members family (on top, size fixed by the tier): every frame is well-formed JSON in a well-formed JSON-RPC envelope and ONE member takes each JSON type in turn (null, bool, number, string, array, object, false / 0 / empty string / empty array / empty object / 1e400 / nested object), is duplicated, deeply nested (up to 12000 levels) or 1 MiB large: notifications (params as a whole; params._meta; progressToken / progress / total / message of progress; level / logger / data of message; requestId / reason of cancelled; uri of resources/updated; list_changed params; the method member; unknown and duplicated members), server-issued requests with their own id (params and params._meta of roots/list, sampling/createMessage, ping, elicitation/create, unknown; members of sampling / elicitation params; method member; unknown / duplicated members incl. id), results bearing the id of the call in flight (content and its items and their type / text / data / mimeType / resource / annotations; _meta; isError; structuredContent; tools and items, inputSchema, outputSchema, annotations, name, description; nextCursor; prompts / resources and items and their members; contents and items and uri / text / blob / mimeType; messages and items, role, content and its members; description; a roots member; duplicated / unknown members) and error responses bearing that id (code, message, data of each type, absent, duplicated, unknown members); a notif / srvreq script carries all type variants of one member, a result / error script one frame; x the placements and handler modes of the same-id family (with a handler requested, handlers are registered for notifications/verif and the library's 7 well-known notification methods); quick runs each result cell on one of the four answer-carrying kinds (rotation independent of the seed), notif / srvreq cells on every kind in 2 combinations, error cells on every kind in 1. Oracle there: the probe returns an error or its well-formed answer (a frame bearing its id that has a result / error member may also be read leniently), plus every stage above (process alive, pending call, spin, later frames, second call, Close). Distinct = (client kind, placement, fragment class, probe outcome) that conformed.",
 		[]string{
 			"'all byte streams' is sampled: fixed class list x placements x seeded parameters",
 			"a client that extracts a valid answer from a damaged HTTP response, accepts an id of another JSON type with the same value (\"3\" / 3.0 for 3), or builds a result from a wrongly shaped result object with the right id is accepted (lenient reading is not a survival failure)",
@@ -138,6 +162,8 @@ func main() {
 			"in a JSON-mode body two JSON values (same-id frame + answer, or a batch array) need not be understood: error or the answer's content",
 			"for scripts that close the legacy / stdio stream the transport is legitimately dead: later calls must fail promptly, not succeed",
 			"stdout closed while the server process stays alive is not driven (C08)",
+			"typed-members family: a notification / server request whose members have unexpected types may be dropped, delivered to the handler as decoded, or answered with an error by the client - all are survival; only death, spin, a hang, a result out of nothing, and lost later frames / calls are failures",
+			"typed-members family: result frames are not placed on the Streamable GET stream (a response there never reaches a result decoder); the error-object cells cover the envelope decoding on that stream",
 			"the spin monitor measures the whole client process (getrusage), the scripted HTTP server lives in the same process but is idle during the windows",
 		})
 }
